@@ -142,6 +142,13 @@ for fn, nm in ((5, 'mem_prim_move8'), (6, 'mem_prim_move16'), (7, 'mem_prim_move
           cbmc_flags=['--max-field-sensitivity-array-size', '4000'],
           bound='enumerated: every element alignment, len 1..%d elements, src-dest in %s elements' % (lmax, list(offs)))
 
+# ---- engine A: the same contracts ENFORCED on the element-wise primitives (loop contracts, unbounded)
+for fn, nm in ((2, 'mem_prim_set16'), (3, 'mem_prim_set32'), (5, 'mem_prim_move8'), (6, 'mem_prim_move16'), (7, 'mem_prim_move32')):
+    J('A.%s' % nm, ['C01', 'C06', 'C18'] if fn <= 3 else ['C01', 'C02', 'C06', 'C07'], 'A', 'contracts/mem/prims.spec.c',
+      sources=[PRIM], overlays={PRIM: 'contracts/mem/prims.loops'}, defines=['FN=%d' % fn],
+      enforce=nm, functions=[nm], timeout=900, mem_gb=6, tiers=('dev',),
+      note='contract of include/prim_contracts.h enforced on the real body; len any uint32_t, one arena, every element-aligned placement of dest and src')
+
 # ---- memory wrappers, loop-free, primitives replaced by their contracts (engine C)
 MEM_COMMON = ['src/mem/safe_mem_constraint.c', 'src/ignore_handler_s.c']
 PRIMS = ['mem_prim_set', 'mem_prim_set16', 'mem_prim_set32', 'mem_prim_move', 'mem_prim_move8', 'mem_prim_move16', 'mem_prim_move32']
